@@ -1552,7 +1552,7 @@ class PMux(_Component):
         self._params = {}
         self._params["name"] = name
         if not isinstance(rs, list):
-            self._params["rs"] = abs(rs)
+            rs = abs(rs)
         elif not all(isinstance(e, (int, float)) for e in rs):
             raise ValueError("rs values must be numbers!")
         self._params["rs"] = rs
